@@ -142,8 +142,12 @@ def run_prop(st, label, prop, *args):
         return True
     neg = True if cond is False else z3.Not(cond)
     excl = []
-    for fid, sig in KNOWN.get(label, ()):  # exclude listed findings
-        s = sig(*args)
+    for fid, sig in KNOWN.get(label, ()):  # exclude listed findings (sig is spec code, may fork)
+        so = attempt(sig, *args)
+        if so.exc is not None:
+            col.inconclusive.append("known-finding signature %s raised %r" % (fid, so.exc))
+            continue
+        s = so.value if isinstance(so.value, bool) else truth(so.value)
         if s is True:
             # whole path lies inside a known finding
             col.known_hits[fid] = col.known_hits.get(fid, 0) + 1
@@ -196,7 +200,11 @@ def run_item(item):
     fn = getattr(mod, item["fn"])
     params = item.get("params", {})
     global KNOWN
-    KNOWN = getattr(mod, "KNOWN_SIGS", {})
+    KNOWN = {}
+    for e in load_known(item.get("pid", "")):
+        if e.get("status") == "open" and e.get("sig"):
+            for lb in e.get("labels", []):
+                KNOWN.setdefault(lb, []).append((e["id"], resolve(e["sig"])))
 
     def body(st):
         fn(st, **params)
@@ -314,6 +322,7 @@ def main_check(pid, modname, tier, seed):
     items = mod.items(tier)
     for it in items:
         it.setdefault("mod", modname)
+        it["pid"] = pid
     jobs = int(os.environ.get("VERIF_JOBS", "0")) or None
     results = run_items(items, jobs)
     # items split by decision prefix: explore the deferred sub-trees as separate items
